@@ -59,6 +59,17 @@ class ArrV(object):
         self.tid, self.elems, self.elem = tid, elems, elem
 
 
+class ArrRef(object):
+    """a large array value read as a whole (`x := *p` of a struct that embeds it): the array at address `addr` as it
+    was in state `pre`; storing it somewhere copies it element by element (see Exec.obj_store)"""
+    __slots__ = ('tid', 'addr', 'pre')
+
+    def __init__(self, tid, addr, pre):
+        self.tid = tid
+        self.addr = addr
+        self.pre = pre
+
+
 class TupleV(object):
     __slots__ = ('elems',)
 
